@@ -24,9 +24,16 @@ def classes(a, spec, res):
 
 
 def subchecks(tier):
-    prof = common.full_profile(allowed=common.FULL + ["exact"])
+    prof = common.full_profile("C02", allowed=common.FULL + ["exact"])
     prof.weights["exact"] = 0.1
-    prof.excluded = tuple(prof.excluded) + ("exact_low_precision",)
     base = system_subcheck("lattice", prof, lambda spec: [TimeFlow()], nontrivial, classes=classes,
                             n={"quick": 12000, "thorough": 60000}, rule="full lattice; clock + record monitor after every event")
-    return [base, fuzz_subcheck(base, tier)]
+    # slotted nodes with capacitated, pre-emptive slots and long services: repeated interruptions of the same customer
+    from .. import strategies as S
+    w = {"slotted": 1.0, "slot_capacitated": 0.9, "slot_preempt": 0.9, "priorities": 0.4, "batching": 0.4, "self_loops": 0.3, "reneging": 0.2,
+         "inf": 0.1, "routing_objects": 0.2, "discipline": 0.2, "cc_after": 0.1}
+    sl = S.Profile(list(w), weights=w, required=("slotted",), numeric="grid", max_nodes=2, max_classes=2, plans=("max_time",), horizon=(8.0, 20.0),
+                   budget=600, load="heavy", resumptions=(1, 1))
+    slotted = system_subcheck("slotted", sl, lambda spec: [TimeFlow()], lambda a, spec, res: a.get("rec_interrupted_service", 0) >= 2 and a.get("events", 0) >= 40,
+                              classes=classes, n={"quick": 3600, "thorough": 30000}, rule="slotted nodes (capacitated, pre-emptive) under heavy load; same monitor")
+    return [base, slotted, fuzz_subcheck(base, tier)]
